@@ -141,7 +141,7 @@ def currentCount (c : Cfg) (b : Bytes) : Nat :=
 
 /-- `<iterator>::current_count` -/
 def iterCount (c : Cfg) (k : Comp) (b : Bytes) : Nat :=
-  if c.iterContiguous k then b.currentCount c
+  if c.iterContiguous k then b.index
   else match k with
     | .integer => b.ic | .fraction => b.fc | .exponent => b.ec | .special => b.ic
 
